@@ -10,7 +10,9 @@ import (
 )
 
 var checks = map[string]func(tier string) *core.Report{
+	"C08": rtcheck.C08,
 	"C09": rtcheck.C09,
+	"C10": rtcheck.C10,
 }
 
 func main() {
